@@ -41,7 +41,7 @@ inductive Width where
   | w8 | w16 | w32 | w64
   deriving DecidableEq, Repr, Inhabited
 
-@[simp] def Width.bits : Width → Nat
+@[reducible, simp] def Width.bits : Width → Nat
   | .w8 => 8 | .w16 => 16 | .w32 => 32 | .w64 => 64
 
 def Width.bytes : Width → Nat
